@@ -158,3 +158,10 @@ plan("C06", "fault_enumeration",
      lambda tier: [S("C06", 2400 if tier == "quick" else 150000)],
      assumptions=["error-class equality is asserted only for constructed single faults followed by >= 16 padding bytes", "incomplete code sets are a grey zone: neither acceptance nor rejection is an alarm",
                   "rejection of something the lenient reference accepts is never an alarm"])
+
+plan("C19", "exploration",
+     "Writers: generated gzip field values/optional-field subsets (extra to 65535 bytes) and zlib (info 0-15, level, dict flag/id) x output sizes around the required size, compared with an independent RFC 1952/1950 "
+     "writer and parsed by zlib; readers: headers from the reference writer and from zlib (deflateSetHeader, deflateSetDictionary) under one piece / every split / byte-wise / random pieces, caller buffers NULL/exact/"
+     "undersized with grow-and-resume, corrupted HCRC/FCHECK/CM; arbitrary bytes on guard-paged buffers. Non-trivial: >= 2 optional fields, split inside the header, or overflow-resume.",
+     lambda tier: [S("C19", 40000 if tier == "quick" else 2000000)],
+     assumptions=["name and comment passed to the writer are NUL-terminated inside their buffers", "resume after overflow follows the in-tree protocol: grow the buffer keeping its contents, call again"])
